@@ -23,7 +23,8 @@ for _p in __import__("sys").path:
         break
 
 BEHAVIOURS = ["plain-ok", "refuse", "accept-close", "accept-rst", "stall", "partial-then-close", "close-during-upload",
-              "tls-ok", "tls-garbage", "tls-untrusted", "tls-close-in-handshake", "tls-stall-timeout", "tls-stall-cancel"]
+              "tls-ok", "tls-garbage", "tls-untrusted", "tls-close-in-handshake", "tls-eof-in-handshake", "tls-stall-timeout",
+              "tls-stall-cancel"]
 
 OK_RESPONSE = b"HTTP/1.1 200 OK\r\nContent-Length: 5\r\n\r\nhello"
 
@@ -112,6 +113,20 @@ class Server:
             elif b == "tls-close-in-handshake":
                 c.recv(100)
                 c.close()
+            elif b == "tls-eof-in-handshake":
+                # consume the whole ClientHello, then end the stream cleanly (FIN, not RST): an EOF inside the handshake
+                c.settimeout(0.15)
+                try:
+                    while c.recv(65536):
+                        pass
+                except OSError:
+                    pass
+                try:
+                    c.shutdown(socket.SHUT_WR)
+                except OSError:
+                    pass
+                time.sleep(0.2)
+                c.close()
             elif b in ("tls-stall-timeout", "tls-stall-cancel"):
                 c.recv(100)
                 while not self.stop:
@@ -187,6 +202,7 @@ EXPECT = {
     "tls-garbage": (httpcore.ConnectError,),
     "tls-untrusted": (httpcore.ConnectError,),
     "tls-close-in-handshake": (httpcore.ConnectError,),
+    "tls-eof-in-handshake": (httpcore.ConnectError,),
     "tls-stall-timeout": (httpcore.ConnectTimeout,),
     "tls-stall-cancel": "cancelled",
 }
@@ -266,3 +282,215 @@ def run_one(backend: str, behaviour: str):
     rec_cm.__exit__(None, None, None)
     res["accepted"] = srv.accepted
     return res
+
+
+# ---------------------------------------------------------------------------------------------------------------
+# timeout ledger of the real synchronous back-end (C16): which timeout is in force on the socket at each operation
+# ---------------------------------------------------------------------------------------------------------------
+LEDGER_TIMEOUTS = {"connect": 1.1, "read": 2.2, "write": 3.3, "pool": 4.4}
+
+
+class _Relay:
+    """A loopback CONNECT proxy ('http') or SOCKS5 proxy ('socks') that relays to 127.0.0.1:<port named by the client>."""
+
+    def __init__(self, kind: str) -> None:
+        self.kind = kind
+        self.sock = socket.socket(socket.AF_INET, socket.SOCK_STREAM)
+        self.sock.setsockopt(socket.SOL_SOCKET, socket.SO_REUSEADDR, 1)
+        self.sock.bind(("127.0.0.1", 0))
+        self.port = self.sock.getsockname()[1]
+        self.sock.listen(8)
+        self.sock.settimeout(0.2)
+        self.stop = False
+        self.socks: list = []
+        threading.Thread(target=self._loop, daemon=True).start()
+
+    def _loop(self) -> None:
+        while not self.stop:
+            try:
+                c, _ = self.sock.accept()
+            except (socket.timeout, OSError):
+                continue
+            self.socks.append(c)
+            threading.Thread(target=self._serve, args=(c,), daemon=True).start()
+
+    def _recvn(self, c, n: int) -> bytes:
+        buf = b""
+        while len(buf) < n:
+            d = c.recv(n - len(buf))
+            if not d:
+                raise OSError("eof")
+            buf += d
+        return buf
+
+    def _serve(self, c) -> None:
+        try:
+            c.settimeout(3)
+            if self.kind == "http":
+                buf = b""
+                while b"\r\n\r\n" not in buf:
+                    d = c.recv(65536)
+                    if not d:
+                        return
+                    buf += d
+                target = buf.split(b" ", 2)[1].decode()
+                port = int(target.rsplit(":", 1)[1])
+            else:
+                ver, n = self._recvn(c, 2)
+                self._recvn(c, n)
+                c.sendall(b"\x05\x00")
+                ver, cmd, _, atyp = self._recvn(c, 4)
+                if atyp == 3:
+                    ln = self._recvn(c, 1)[0]
+                    self._recvn(c, ln)
+                elif atyp == 1:
+                    self._recvn(c, 4)
+                else:
+                    self._recvn(c, 16)
+                port = struct.unpack("!H", self._recvn(c, 2))[0]
+            up = socket.create_connection(("127.0.0.1", port), 3)
+            self.socks.append(up)
+            if self.kind == "http":
+                c.sendall(b"HTTP/1.1 200 Connection established\r\n\r\n")
+            else:
+                c.sendall(b"\x05\x00\x00\x01\x00\x00\x00\x00\x00\x00")
+
+            def pump(a, b_):
+                try:
+                    a.settimeout(5)
+                    while True:
+                        d = a.recv(65536)
+                        if not d:
+                            break
+                        b_.sendall(d)
+                except OSError:
+                    pass
+                try:
+                    b_.shutdown(socket.SHUT_WR)
+                except OSError:
+                    pass
+            t = threading.Thread(target=pump, args=(up, c), daemon=True)
+            t.start()
+            pump(c, up)
+            t.join(2)
+        except (OSError, ValueError, IndexError):
+            pass
+        finally:
+            try:
+                c.close()
+            except OSError:
+                pass
+
+    def close(self) -> None:
+        self.stop = True
+        for s_ in [self.sock] + self.socks:
+            try:
+                s_.close()
+            except OSError:
+                pass
+
+
+def sync_timeout_ledger(mode: str) -> dict:
+    """mode: direct-http | direct-https | tunnel-https | socks-https. Runs one request through the real
+    SyncBackend with four distinct timeouts and returns the list of (operation, timeout in force on the socket)."""
+    import httpcore._backends.sync as sync_mod
+    ledger: list = []
+    real_socket = socket
+
+    class RecSocket(socket.socket):
+        def recv(self, *a, **k):
+            ledger.append(("raw.recv", self.gettimeout()))
+            return super().recv(*a, **k)
+
+        def send(self, *a, **k):
+            ledger.append(("raw.send", self.gettimeout()))
+            return super().send(*a, **k)
+
+        def sendall(self, *a, **k):
+            ledger.append(("raw.send", self.gettimeout()))
+            return super().sendall(*a, **k)
+
+    class RecSSLSocket(ssl.SSLSocket):
+        def do_handshake(self, *a, **k):
+            ledger.append(("tls.handshake", self.gettimeout()))
+            return super().do_handshake(*a, **k)
+
+        def recv(self, *a, **k):
+            ledger.append(("tls.recv", self.gettimeout()))
+            return super().recv(*a, **k)
+
+        def send(self, *a, **k):
+            ledger.append(("tls.send", self.gettimeout()))
+            return super().send(*a, **k)
+
+        def sendall(self, *a, **k):
+            ledger.append(("tls.send", self.gettimeout()))
+            return super().sendall(*a, **k)
+
+    class SocketShim:
+        """Stands in for the `socket` module inside httpcore._backends.sync."""
+
+        def __getattr__(self, name):
+            return getattr(real_socket, name)
+
+        def create_connection(self, address, timeout=None, source_address=None, **kw):
+            ledger.append(("connect", timeout))
+            s_ = real_socket.create_connection(address, timeout, source_address=source_address, **kw)
+            t = s_.gettimeout()
+            rs = RecSocket(s_.family, s_.type, s_.proto, fileno=s_.detach())
+            rs.settimeout(t)
+            return rs
+
+    tls = mode.endswith("https")
+    srv = Server("tls-ok" if tls else "plain-ok")
+    relay = _Relay("http" if mode.startswith("tunnel") else "socks") if not mode.startswith("direct") else None
+    ctx = None
+    if tls:
+        ctx = client_ctx("tls-ok")
+        ctx.sslsocket_class = RecSSLSocket
+    saved = sync_mod.socket
+    sync_mod.socket = SocketShim()
+    res = {"mode": mode, "ledger": ledger}
+    try:
+        proxy = None
+        if relay is not None:
+            proxy = httpcore.Proxy(f"{'http' if relay.kind == 'http' else 'socks5'}://127.0.0.1:{relay.port}")
+        pool = httpcore.ConnectionPool(ssl_context=ctx, proxy=proxy)
+        try:
+            r = pool.request("POST", f"{'https' if tls else 'http'}://localhost:{srv.port}/", content=b"x" * 2000,
+                             extensions={"timeout": dict(LEDGER_TIMEOUTS)})
+            res["status"] = r.status
+        except Exception as exc:  # noqa
+            res["exc"] = exc
+        finally:
+            pool.close()
+    finally:
+        sync_mod.socket = saved
+        srv.close()
+        if relay is not None:
+            relay.close()
+    return res
+
+
+def judge_timeout_ledger(res: dict) -> list:
+    """Returns [(operation, timeout seen, timeout expected)] for every operation issued with the wrong timeout."""
+    T = LEDGER_TIMEOUTS
+    socks = res["mode"].startswith("socks")
+    bad = []
+    seen_handshake = False
+    for op, t in res["ledger"]:
+        if op == "connect" or op == "tls.handshake":
+            want = T["connect"]
+            seen_handshake = seen_handshake or op == "tls.handshake"
+        elif op == "raw.recv":
+            # SOCKS negotiation is part of establishing the connection; a CONNECT exchange is an HTTP request of its own
+            want = T["connect"] if socks else T["read"]
+        elif op == "raw.send":
+            want = T["connect"] if socks else T["write"]
+        elif op == "tls.recv":
+            want = T["read"]
+        else:
+            want = T["write"]
+        if t != want:
+            bad.append((op, t, want))
+    return bad
